@@ -1,6 +1,6 @@
 (* C07 - bitwise, shift and rotate assignments against Z.lor / Z.land / Z.lxor / Z.shiftl /
    Z.shiftr and 64-bit rotation, for all int64 operands. *)
-From Coq Require Import List NArith ZArith Bool Lia.
+From Coq Require Import List NArith ZArith Bool Lia Floats.SpecFloat.
 From Falco Require Import Base.Res Base.Bytes Model.Float Model.Acl Model.Val Model.Assign Model.Oper Proofs.EvalLaws.
 Import ListNotations.
 Local Open Scope Z_scope.
@@ -153,4 +153,33 @@ Example rol_example : assign (fun _ => None) OpRol (VInt (- 2 ^ 63) false false 
 Proof. reflexivity. Qed.
 Example ror_example : assign (fun _ => None) OpRor (VInt 1 false false false) (rint 65 false false)
                       = AOk (VInt (- 2 ^ 63) false false false).
+Proof. reflexivity. Qed.
+
+(* ---------------------------------------------------------------- witnesses: the hypotheses of the laws are satisfiable *)
+Example ex_add_in_range : assign (fun _ => None) OpAdd (VInt (2 ^ 62) false false false) (rint (2 ^ 62 - 1) false true)
+                          = AOk (VInt (2 ^ 63 - 1) false false false).
+Proof. reflexivity. Qed.
+Example ex_add_wraps : assign (fun _ => None) OpAdd (VInt (2 ^ 62) false false false) (rint (2 ^ 62) false true)
+                       = AOk (VInt (- 2 ^ 63) false false false).      (* out of range: the code wraps *)
+Proof. reflexivity. Qed.
+Example ex_div_trunc : assign (fun _ => None) OpDiv (VInt (-7) false false false) (rint 2 false false)
+                       = AOk (VInt (-3) false false false).
+Proof. reflexivity. Qed.
+Example ex_shl_in_range : assign (fun _ => None) OpShl (VInt (-1) false false false) (rint 63 false false)
+                          = AOk (VInt (- 2 ^ 63) false false false).
+Proof. reflexivity. Qed.
+Example ex_shr_big_count : assign (fun _ => None) OpShr (VInt (-8) false false false) (rint (2 ^ 62) false false)
+                           = AOk (VInt (-1) false false false).
+Proof. reflexivity. Qed.
+Example ex_rtime_seconds : assign (fun _ => None) OpAdd (VRTime 500000000) (rint 2 false false) = AOk (VRTime 2500000000).
+Proof. reflexivity. Qed.
+Example ex_lt_gt_mixed :
+  compare_op CLt (mkOp (VRTime 1500000000) false) (mkOp (VFloat (S754_finite false 6755399441055744 (-52)) false false false) false) = OK true /\
+  compare_op CGt (mkOp (VFloat (S754_finite false 6755399441055744 (-52)) false false false) false) (mkOp (VRTime 1500000000) false) = OK true.
+Proof. split; reflexivity. Qed.      (* 1 (whole seconds of 1.5s) < 1.5 *)
+Example ex_nan_flag_dual :
+  compare_op CLt (mkOp (VRTime 0) false) (mkOp (VFloat (f_of_int 5) true false false) false) = OK false /\
+  compare_op CGt (mkOp (VFloat (f_of_int 5) true false false) false) (mkOp (VRTime 0) false) = OK false.
+Proof. split; reflexivity. Qed.      (* the case that was true / false before 9920526 *)
+Example ex_notset_ip : equal (fun _ => None) (mkOp (VIp (Some (mkAddr V4 1%N)) false) false) (mkOp (VStr nil true) false) = OK false.
 Proof. reflexivity. Qed.
